@@ -12,7 +12,7 @@ RULE = (
     "X1 over generated plans: all 70 order-preserving interleavings of two 4-unit run bodies (open_run, checkpointed bundle, "
     "checkpointed bundle, close_run) under run keys k1/k2 (and None/k2), each detector's readings carrying a per-key marker; plus, for "
     "every interleaving position, an extra open_run of a key that is open at that point (the plan logs and swallows the rejection); "
-    "pause->resume and suspension at every loop position (quick: on 10 interleavings; thorough: all, and two interruptions on 4). "
+    "pause->resume at every loop position of every interleaving, suspension on 10 of them (thorough: all, and two interruptions on 4). "
     "Oracle: per run DOCSTREAM and SEQNUM on its own documents, every event of run k carries only detector k's keys and values, "
     "no document references another run, the data per (run, seq_num) equal the uninterrupted execution; a duplicate open_run is "
     "answered with IllegalMessageSequence at that very yield and the runs' documents are those of the plan without the duplicate; "
@@ -24,7 +24,8 @@ MENU = [("pause",), ("suspend", "none")]
 _ten = [0, 7, 19, 23, 34, 35, 46, 52, 61, 69]
 SPECS = {
     "quick": [spec("keys", [], bound=0, il=i) for i in range(70)]
-    + [spec("keys", MENU, bound=1, il=i) for i in _ten]
+    + [spec("keys", [("pause",)], bound=1, il=i) for i in range(70)]
+    + [spec("keys", [("suspend", "none")], bound=1, il=i) for i in _ten]
     + [spec("keys", [], bound=0, il=i, dup=j, ly=1, oe="s") for i in _ten for j in range(8)]
     + [spec("keys", MENU, bound=1, il=34, nokey=1)],
     "thorough": [spec("keys", MENU, bound=1, il=i) for i in range(70)]
